@@ -105,6 +105,9 @@ def c04(run):
         run.replay(b, cases, label=c)
         if c in ("qdiff", "tdiff"):
             run.negative_control_replay(b, cases, corrupt_first(lambda e: e["out"]["kind"] == "ok" and "d" in e["out"]["val"], lambda e: bump_big(e["out"]["val"]["d"])))
+    # until / since WITH smallestUnit / roundingIncrement / roundingMode (and with the units left out): the RelativeRound instance restricted to date differences
+    cases, n = run.gen("mc/MC_RelativeRound.tla", "gen/Gen_C04_rounded.cfg", workers=8, name="rounded", timeout=1500)
+    run.replay(b, cases, label="rounded")
     tr = run.record(b, "c04", 40000 if q else 600000)
     run.validate("trace/Trace_Date.tla", "trace/Trace_Date.cfg", tr)
     small = head_of(run, tr, 500, "c04.small.trace.ndjson")
